@@ -187,6 +187,8 @@ class Checker:
             if a_.e != b_.e:
                 pt = None
                 if ctx.pc:   # equalities added by forks may make different normal forms equal
+                    if ctx.vanishes_on_kernels(a_.e - b_.e):
+                        continue
                     dz = ctx.poly_z3((a_.e - b_.e).numer) != 0
                     if ctx._sat(dz) == z3.unsat:
                         continue
